@@ -24,6 +24,7 @@ func init() {
 			{"C20/validation", "forward only after POST, declared length <= 128 KiB, full body, DER without trailing bytes; 405/411/413/400 on the refusals; POST-only route", c20Validation},
 			{"C20/decode-fresh", "every request is decoded into a fresh message value (optional fields absent from the request are absent)", c20DecodeFresh},
 			{"C20/realm", "the KDC list is looked up for the realm the request names; the default realm only when it names none", c20Realm},
+			{"C20/lock-pairing", "every lock taken in the KDC proxy is released on all exits (an answer within bounded time for the next request)", func(c *Ctx) { lockPairingIn(c, "C20/lock-pairing", kdcPkgPath) }},
 			{"C20/config-source", "the Kerberos configuration is loaded from the configured file (the system default only when none is configured)", c20ConfigSource},
 			{"C20/faithful", "TCP: bytes written = decoded message; reply returned = bytes read by awaitReply; response = encode(reply); encode wraps exactly its argument", c20Faithful},
 			{"C20/bounded-io", "every KDC connection gets a constant deadline before its first write", c20BoundedIO},
